@@ -41,7 +41,7 @@ def run(repo, res):
     from .. import api_model
     recs = api_model.assist_model(repo)
     n = api_model.apply(res, recs, {'prefix': 'C12-R1', 'shape': 'C12-R2', 'sorted': 'C12-R2', 'unique': 'C12-R2', 'ident': 'C12-R2',
-                                    'pkg': 'C12-R2'}, ASSIST, assist.lineno)
+                                    'pkg': 'C12-R2', 'branch': 'C12-R2'}, ASSIST, assist.lineno)
     res.count('assist_scenarios', n, floor=120)
     # what an import line proposes comes from Project.list_packages: interpreted on a modelled directory with the suffixes importlib
     # uses (ABI-tagged extension modules included), every proposed name must be an identifier
